@@ -1,5 +1,5 @@
 (* Pins_C20.v — the statements of Props_C20.v, pinned. *)
-From FV Require Import Base FsModel AtomicModel AtomicProofs4 Props_C20.
+From FV Require Import Base FsModel AtomicModel AtomicProofs4 AtomicProofs6 Props_C20.
 Open Scope N_scope.
 Check C20_locked_untouched : forall (c : fcmd) (s : fs) (o : oracle) (i : nat) (i0 : N),
   norm (victim c) = victim c -> names s (victim c) = Some (NFile i0) -> locks s i0 = true ->
@@ -17,3 +17,7 @@ Check C20_others_unaffected : forall (c : fcmd) (rest : list fcmd) (s : fs) (o :
 Check C20_no_lock_flag : forall (c : fcmd) (o : oracle) (i : nat) (s : fs) (l : N -> bool),
   let r := run o i (prog_of false c) s in let r' := run o i (prog_of false c) (set_locks s l) in
   ofs r' = set_locks (ofs r) l /\ ores r' = ores r /\ oidx r' = oidx r /\ owarn r' = owarn r /\ ofaults r' = ofaults r.
+Check C20_all_locked_script : forall (o : oracle), (forall k, not_unsupported o k) ->
+  forall (cs : list fcmd) (s : fs), Forall (locked_victim s) cs ->
+  forall i, let t := run_script true o i cs s in
+    sfs t = s /\ sresults t = repeat IErr (length cs) /\ processed_count t = 0%nat /\ swarn t = length cs.
